@@ -16,6 +16,7 @@ type PathCtl struct {
 	pos     int
 	trace   []int
 	pending *[][]int
+	push    func([]int)
 }
 
 func (p *PathCtl) Choose(n int, feasible func(i int) bool) int {
@@ -37,7 +38,11 @@ func (p *PathCtl) Choose(n int, feasible func(i int) bool) int {
 		alt := make([]int, len(p.trace)+1)
 		copy(alt, p.trace)
 		alt[len(p.trace)] = i
-		*p.pending = append(*p.pending, alt)
+		if p.push != nil {
+			p.push(alt)
+		} else {
+			*p.pending = append(*p.pending, alt)
+		}
 	}
 	if first >= 0 {
 		p.pos++
@@ -175,12 +180,55 @@ func (s *Session) AssertPC(t *Term) {
 	s.send("(assert " + n + ")\n")
 }
 
+// query poses pc ∧ extra.  In tier R the axioms of the rounded-real abstraction are added in
+// stages (linear facts, then nonlinear error bounds, then pairwise monotonicity): every stage is an
+// over-approximation of IEEE arithmetic, so `unsat` at any stage is final; `sat` only counts at the
+// last stage.  maxLevel limits the refinement (feasibility checks use the cheap stage only).
 func (s *Session) query(extra string, to time.Duration) string {
+	return s.queryLevels(extra, to, 3)
+}
+
+func (s *Session) queryLevels(extra string, to time.Duration, maxLevel int) string {
 	s.solver.Send("(push 1)\n" + extra)
 	t0 := time.Now()
-	ans := s.solver.CheckSat(to)
-	s.res.Queries++
-	s.res.SolverTime += time.Since(t0)
+	defer func() { s.res.SolverTime += time.Since(t0) }()
+	if s.r.mode != ModeReal {
+		s.res.Queries++
+		return s.solver.CheckSat(to)
+	}
+	ans := "unknown"
+	prev := 0
+	for lvl := 1; lvl <= maxLevel; lvl++ {
+		ax := s.r.AxiomText(prev, lvl)
+		if ax == "" && lvl > 1 {
+			prev = lvl
+			continue
+		}
+		prev = lvl
+		s.solver.Send(ax)
+		s.res.Queries++
+		stageTO := to
+		if lvl < maxLevel {
+			stageTO = to / 4
+			if stageTO < time.Second {
+				stageTO = time.Second
+			}
+		}
+		restarts := s.solver.restarts
+		ans = s.solver.CheckSat(stageTO)
+		if ans == "unsat" {
+			return ans
+		}
+		if s.solver.restarts != restarts {
+			// hard timeout: the process was replaced; rebuild the context for the next stage
+			s.lastRestarts = s.solver.restarts
+			s.resync()
+			s.solver.Send("(push 1)\n" + extra + s.r.AxiomText(0, lvl))
+		}
+		if strings.HasPrefix(ans, "error") {
+			return ans
+		}
+	}
 	return ans
 }
 
@@ -213,7 +261,7 @@ func (s *Session) Feasible(t *Term) bool {
 	}
 	n := s.ref(t)
 	tq := time.Now()
-	ans := s.query("(assert "+n+")\n", s.feasTO)
+	ans := s.queryLevels("(assert "+n+")\n", s.feasTO, 1)
 	if d := time.Since(tq); d > 500*time.Millisecond && verboseLog {
 		logf("    slow feasibility %.1fs -> %s at %s\n", d.Seconds(), ans, s.ex.curPos())
 	}
@@ -462,7 +510,7 @@ func (c *Candidate) ModelSummary() map[string]interface{} {
 // (fresh processes); the first definite answer wins.  Returns the winning solver (for model
 // extraction) and a cleanup function.
 func (s *Session) portfolioSolve(extra string) (string, *Solver, func()) {
-	script := s.script.String() + extra
+	script := s.script.String() + s.r.AxiomText(0, 3) + extra
 	kinds := []SolverKind{SolverZ3New, SolverCVC5, SolverZ3}
 	if s.r.mode == ModeReal {
 		kinds = []SolverKind{SolverZ3New, SolverZ3}
